@@ -168,7 +168,7 @@ type sresult struct {
 }
 
 func steadyScenario(c scfg) *explore.Scenario {
-	sc := &explore.Scenario{Name: c.name(), PB: 0, NoCache: true}
+	sc := &explore.Scenario{Name: c.name(), PB: 0, NoCache: true, Single: true}
 	sc.Setup = func(x *vrt.Exec) {
 		x.MaxSteps = 5_000_000
 		x.SchedDeterministic = true
